@@ -118,13 +118,21 @@ class FuncRun(ExprMixin, InstrMixin, CallMixin):
         self.obls.append(o)
         return o
 
-    def cover(self, what, state, pos=''):
+    def cover(self, what, state, pos='', before=None):
+        """vacuity canary: the path condition must be satisfiable here.  `before` (hyps count, pc) describes the same
+        point before an assumed postcondition was added: code that was already unreachable is not a vacuity problem."""
         if self.mute:
             return
         k = (self.oname, 'cover')
         self.kind_counts[k] = self.kind_counts.get(k, 0) + 1
         name = '%s/cover#%d:%s' % (self.oname, self.kind_counts[k], what)
         o = Obligation(name, 'cover', self.fn['name'], what, pos, len(self.hyps), T.not_(state.pc), expect_sat=True)
+        if before is not None:
+            ob = Obligation(name + '~before', 'cover', self.fn['name'], what, pos, before[0], T.not_(before[1]), expect_sat=True)
+            ob.report_only = True
+            ob.is_before = True
+            self.obls.append(ob)
+            o.pair = ob
         self.obls.append(o)
 
     def record_write(self, what, key=None):
